@@ -317,7 +317,9 @@ def check_padding(profile, extra, scalar, return_ctx, single_item, p):
                 # python scalars of every kind: int, a float that float32 cannot hold (unix timestamp), bool
                 s = s + (i, 1695800000.25 + i, bool(i % 2))
             s = s + (torch.tensor(float(L)),)
-        samples.append((s, {"pre": float(i)}) if return_ctx else s)
+        # contexts with the same keys, written in another order by every second sample (wrappers record keys as they run)
+        cx = {"pre": float(i), "offset": 100 + i} if i % 2 == 0 else {"offset": 100 + i, "pre": float(i)}
+        samples.append((s, cx) if return_ctx else s)
     mode = "x" if single_item else " ".join(["x"] + (["fixed", "y"] if extra else []) + (["index", "timestamp", "flag"] if scalar else []) + ["seqlen"])
     p.evaluations += 1
     try:
@@ -330,7 +332,8 @@ def check_padding(profile, extra, scalar, return_ctx, single_item, p):
             p.violation(f"C18:padding:ctx_not_returned{tag}", case, f"{type(out)}")
             return
         out, ctx = out
-        if set(ctx) != {"pre"} or not torch.is_tensor(ctx["pre"]) or ctx["pre"].tolist() != [float(i) for i in range(B)]:
+        if set(ctx) != {"pre", "offset"} or not torch.is_tensor(ctx["pre"]) or ctx["pre"].tolist() != [float(i) for i in range(B)] \
+                or ctx["offset"].tolist() != [100 + i for i in range(B)]:
             p.violation(f"C18:padding:ctx_wrong{tag}", case, f"{ctx}")
             return
     fields = [out] if single_item else list(out)
